@@ -35,6 +35,7 @@ Record opill := { op_done : bool;          (* context became done *)
                   op_reg_at_done : bool }. (* target still registered when the waiter saw Done *)
 
 Record obs := { o_recvs : list orecv; o_events : list mevent; o_pills : list opill;
+                o_sends : list nat;        (* user payloads sent to the actor, in send order *)
                 o_escaped : bool; o_hang : bool;
                 o_spawn_started : bool;    (* Started had been handled when Spawn returned *)
                 o_registered : bool }.     (* GetPID non-nil at the end *)
@@ -65,6 +66,9 @@ Fixpoint events_of (t : list event) : list mevent :=
     | _ => []
     end ++ events_of t'
   end.
+
+Fixpoint sends_of (t : list event) : list nat :=
+  match t with [] => [] | Sent n :: t' => n :: sends_of t' | _ :: t' => sends_of t' end.
 
 Definition cancelled (t : list event) (k : nat) : bool :=
   existsb (fun e => match e with Cancel j => Nat.eqb j k | _ => false end) t.
@@ -116,6 +120,7 @@ Definition corr (c : case) : bool :=
   negb (out_of_fuel t) &&
   all2 orecv_eqb (map norm_recv (recvs_of t)) (map norm_recv (o_recvs o)) &&
   all2 mevent_eqb (events_of t) (o_events o) &&
+  all2 Nat.eqb (sends_of t) (o_sends o) &&
   Nat.eqb (npill s) (length (o_pills o)) &&
   all2 Bool.eqb (map (cancelled t) (seq 0 (npill s))) (map op_done (o_pills o)) &&
   Bool.eqb (has_escaped t) (o_escaped o) &&
@@ -173,9 +178,27 @@ Fixpoint panic_then_stopped (tbl : list rule) (l : list orecv) : bool :=
      else true) && panic_then_stopped tbl l'
   end.
 
+(* [a] is a subsequence of [b] *)
+Fixpoint subseqb (a b : list nat) : bool :=
+  match a, b with
+  | [], _ => true
+  | _ :: _, [] => false
+  | x :: a', y :: b' => if Nat.eqb x y then subseqb a' b' else subseqb a b'
+  end.
+Fixpoint dead_payloads (l : list mevent) : list nat :=
+  match l with [] => [] | MDeadUser n :: l' => n :: dead_payloads l' | _ :: l' => dead_payloads l' end.
+
+(* C05 (with C01/C09): what is delivered is delivered in send order; unless the
+   restart budget was exceeded (the rest of the restart buffer is dropped with
+   the actor) every message sent is either delivered or reported as a dead
+   letter — none is lost silently and none is counted twice *)
 Definition oracle_c05 (c : case) : bool :=
   let o := c_obs c in
   negb (o_escaped o) && negb (o_hang o) &&
+  subseqb (user_payloads (o_recvs o)) (o_sends o) &&
+  (existsb (fun e => mevent_eqb e MMaxRestarts) (o_events o) ||
+   (Nat.eqb (length (user_payloads (o_recvs o)) + length (dead_payloads (o_events o))) (length (o_sends o)) &&
+    forallb (fun n => existsb (Nat.eqb n) (user_payloads (o_recvs o)) || existsb (Nat.eqb n) (dead_payloads (o_events o))) (o_sends o))) &&
   all2 Nat.eqb (restarted_counters (o_events o)) (seq 1 (length (restarted_counters (o_events o)))) &&
   panic_then_stopped (c_table c) (o_recvs o) &&
   nodupb (user_payloads (o_recvs o)).
